@@ -192,8 +192,22 @@ pub fn check_history(h: &Hist) -> Result<(bool, Vec<&'static str>), Failure> {
             classes.push("retry_suppressed");
         }
     }
-    // pings (outside checks): exactly one request each is covered by construction: every ping timer firing
-    // produces one NextTime + one request; checked in C12/C08.
+    // pings are sent exactly once: after a ping (whatever its outcome) the next ping needs a new wait, i.e. a new
+    // compute_next_update_time call, in between
+    let mut ping_since_wait = false;
+    for (i, op) in h.log.iter().enumerate() {
+        match op {
+            Op::NextTime { .. } | Op::Build { .. } => ping_since_wait = false,
+            Op::Http { view: Some(v), .. } if v.kind == ReqKind::Ping => {
+                if ping_since_wait {
+                    return Err(failure("ping-retried", "two ping requests without a new wait in between: a ping was retried".to_string(), h, Some((i.saturating_sub(10), i + 1))));
+                }
+                ping_since_wait = true;
+                classes.push("ping");
+            }
+            _ => {}
+        }
+    }
     classes.sort();
     classes.dedup();
     Ok((nontrivial, classes))
@@ -216,6 +230,11 @@ pub fn case(t: &mut Tape, ctx: &CaseCtx) -> CaseResult {
         let p = Profile { outcome_w: [6, 3, 2, 1, 5, 2, 2], retry_after: (1, 5), cup: (1, 2), ..Default::default() };
         let lives = vec![LifePlan { oneshot: t.chance(1, 8), checks: 1 + t.choose(3), crash_at: None, wall_at_start: None }];
         let mut s = gen_script(t, &p);
+        if t.chance(1, 3) {
+            // reboot waits, so that pings (with failing outcomes) are on the wire too
+            s.reboot_needed = vec![true; 3];
+            s.reboot_allowed = vec![(false, false), (false, false), (false, false), (true, true)];
+        }
         if t.chance(1, 4) {
             s.storage_init.push(("server_dictated_poll_interval".into(), SVal::I(*t.pick(&[0i64, 1, 5_000_000, 86_400_000_000]))));
         }
@@ -272,7 +291,7 @@ pub fn run(mut run: Run) -> i32 {
         &[
             "library backoff draws are not seedable (no hooks): the jitter is tested by window membership per draw and by dispersion over >= 200 draws (false-alarm probability < 1e-50)",
             "an event report that concerns no known app may or may not be sent",
-            "pings: exactly-once is covered by the ping timer discipline (C12) and bookkeeping (C08)",
+            "pings: exactly-once = no two ping requests without a new wait (compute_next_update_time) in between",
         ],
     )
 }
